@@ -136,7 +136,7 @@ func runProcScenario(t *testing.T, rec *Recorder, r *rand.Rand, idx int) {
 			kind = "cmd"
 		}
 		fansInfo = append(fansInfo, Ev{"id": f.ID, "kind": kind, "hasMode": f.HasMode, "hasRpm": true, "cfgMap": f.PwmMap,
-			"cfgMinMax": false, "neverStop": f.NeverStop, "pwm": f.Pwm0, "mode": mode, "theta": 0, "rest": []string{"ok", "ok", "ok"},
+			"cfgMinMax": false, "neverStop": f.NeverStop, "pwm": f.Pwm0, "mode": mode, "theta": 0, "quant": 1, "cfgStart": false, "rest": []string{"ok", "ok", "ok"},
 			"hadData": !f.Cmd, "hadMap": !f.Cmd})
 	}
 	var ss []Ev
